@@ -49,7 +49,7 @@ def roles(model):
                 stagefile.append(f)
     filestore = model.one_class("FileStore", "FILESTORES")
     stores = [c for c in model.classes.values() if filestore in c.repo_mro() and c is not filestore
-              and not any(c.is_abstract_method(m) for m in c.methods)]
+              and not c.is_abstract()]
     return publish, stagefile, filestore, stores
 
 
